@@ -1,10 +1,38 @@
 #!/usr/bin/env python3
 """Regenerates MANIFEST.json from the table below (kept in one place so it is always valid)."""
 import json, subprocess
+W = "exhaustive exploration of the REAL goroutines under a cooperative scheduler (source instrumented at check time): all schedules / map-iteration orders / fault placements / cancellation points within stated deviation bounds, happens-before state caching"
 CHECKS = {
- "C14": dict(cat="model_checking", tech="bounded-exhaustive enumeration of CIDRs x packets through the real key builders against an independent kernel-u32 evaluator (thorough: all 2^32 IPv4 packets per CIDR)",
-   text="Every IPv4/IPv6 prefix length x base patterns; classifier keys produced by the real code are evaluated with the kernel's u32 semantics on every packet within Hamming distance 2 of the base (thorough: the entire IPv4 address space) and compared with netip.Prefix.Contains; gateways for every prefix length against big-integer arithmetic; veth names over a small-scope alphabet; table ids over 0..2^20. Exhaustive within those domains; IPv6 packet space is sampled structurally (stated).",
+ "C01": dict(cat="model_checking", engine="weave", tech=W,
+   text="The real eni.Manager and eni.Local code runs under a scheduler that owns every lock, condition variable, channel operation, select, goroutine start, map iteration and timer; scenarios force 2-3 concurrent CNI requests onto one idle address and one free interface slot (incl. asymmetric dual-stack sets, remote address removal, dispose racing allocation, cancellation at any point, restart with stored bindings) and every interleaving with <=2 (quick) / 3 (thorough) departures from the canonical scheduler is executed; an event ledger checks every acknowledgement.",
+   note="Bounded: delay bound 2/3, <=3 client threads, <=3 addresses per interface, simulated factory (contract of pkg/factory/aliyun). Scheduling granularity = synchronisation operations; internal deadline => exhaustive:false, never a failure.", ref="§2, §5 C01"),
+ "C04": dict(cat="model_checking", engine="weave", tech=W+"; replies checked by brute-force linearizability against a sequential reference",
+   text="Real networkService.AllocIP/ReleaseIP/GetIPInfo over the real pool: 2-3 RPC threads on one pod with old/new sandbox ids plus a second pod, cancellation delivered at any scheduling point; every interleaving within the bound; replies must have a sequential explanation, 'processing' must overlap and have no effect, pool ownership must equal stored records at quiescence.",
+   note="Fake k8s.Kubernetes (pod table) instead of pkg/k8s; MemoryStorage; delay bound 2/3.", ref="§5 C04"),
+ "C05": dict(cat="fault_enumeration", engine="crash", tech="crash-point enumeration: every effect boundary of every short RPC history recovered with the real start-up path; every prefix x dropped/torn subset of bolt's page-write log reopened with real bolt",
+   text="Level 1: all histories <=3/4 over ADD/DEL/vanish+gc on a real bolt-backed store; crash after each cloud effect, database commit and reply; recovery through NewDiskStorage->load, filterENINotFound, NewLocal.Run(stored bindings); probes for durability of acknowledged operations and absence of double allocation. Level 2: bolt write/sync log (hooks injected through -overlay), every prefix x every subset of unsynced writes dropped or torn, reopened.",
+   note="Crash points inside a request between two lock operations (no externally visible effect in between) are not distinguished; page size 4096; <=6 unsynced writes per prefix.", ref="§4 D, §5 C05"),
+ "C06": dict(cat="model_checking", engine="weave", tech=W+"; monitor on every factory call",
+   text="Balancer-heavy scenarios (syncPool interleaved with ADD/DEL, repeated syncPool, shrink-to-zero with trunk/RDMA interfaces) over per-ENI cap x batch x min/max idle x IP stack; every factory call's arguments are judged against the ledger of live allocations at call time.",
+   note="As C01; quick tier thins the configuration product (every parameter value still occurs).", ref="§5 C06"),
+ "C07": dict(cat="model_checking", engine="weave", tech=W+"; fault placement enumeration at the factory seam",
+   text="Every placement of <=1/2 faults (before effect, after effect, partial result, quota / vSwitch-exhausted codes, interface returned with error) over the cloud calls of the scenarios, combined with scheduling deviations and a cancellation at any point; at quiescence Status() is compared with the simulated cloud; after healthy balancer rounds the idle count is compared with the watermark band.",
+   note="'Timeout after effect with nothing returned' is outside the factory contract and not injected.", ref="§5 C07"),
+ "C09": dict(cat="model_checking", engine="weave", tech="bounded-exhaustive enumeration of (store, pod list) pairs through the real gcPods inside a private network namespace + interleaving exploration with requests",
+   text="Every subset (quick: size<=4) of 7 record archetypes x store iteration orders; three real gcPods passes in a private netns (kernel calls are real; lo carries the attached interface's MAC); oracle on records and pool ownership after 2 and 3 passes; plus gcPods || AllocIP || ReleaseIP interleavings.",
+   note="Fake k8s.Kubernetes; ipvlan/tc leak collection not exercised (TERWAY_GC_RULES unset).", ref="§5 C09"),
+ "C14": dict(cat="model_checking", engine="enum", tech="bounded-exhaustive enumeration of CIDRs x packets through the real key builders against an independent kernel-u32 evaluator (thorough: all 2^32 IPv4 packets per CIDR)",
+   text="Every IPv4/IPv6 prefix length x base patterns; classifier keys produced by the real code are evaluated with the kernel's u32 semantics on every packet within Hamming distance 2 of the base (thorough: the entire IPv4 address space) and compared with netip.Prefix.Contains; gateways for every prefix length against big-integer arithmetic; veth names over a small-scope alphabet; table ids over 0..2^20.",
    note="Trusts the u32 evaluator (10 lines) and netip as reference; IPv6: <=2-bit perturbations + 10-bit window at the prefix boundary, not 2^128.", ref="§5 C14"),
+ "C15": dict(cat="model_checking", engine="enum", tech="bounded-exhaustive enumeration of strings / JSON shapes through the real parsers under recover",
+   text="Every string of length <=4/5 over a 20-symbol alphabet through parseBandwidth and (shorter) through convertPod; unit-ladder laws on every well-formed number; annotation values through the RPC conversion path.",
+   note="Small-scope alphabet, not all byte strings; further entry points are added as their harnesses land.", ref="§5 C15"),
+ "C16": dict(cat="model_checking", engine="weave", tech=W,
+   text="All issue/fail/succeed histories <=4/5 for every builder and parameter pair with every tag-map iteration order; 2-3 threads issue;rollback;issue on equal and different parameters with the generator's mutex and LRU operations as scheduling points; reference ledger after every operation.",
+   note="uuid values are opaque (canonicalised by first occurrence).", ref="§5 C16"),
+ "C17": dict(cat="model_checking", engine="weave", tech=W,
+   text="Every candidate list <=3 of 4 vSwitches x zones x free counts x policy (every shuffle outcome) x IgnoreZone against a reference selection; block/expiry histories on the virtual clock; GetOne||GetOne;Block||Block sharing one slice with the single-flight fill in flight.",
+   note="Caller slice integrity is checked element-wise; 'most' accepts any candidate with the maximal free count.", ref="§5 C17"),
 }
 NA = {}
 def main():
@@ -19,7 +47,9 @@ def main():
       setup_cmd="cd /verif && ./setup.sh",
       hooks=dict(guard="verif", enable="go test -tags default_build,verif -overlay <generated> (all harness code, shims and instrumented copies are injected through -overlay; /repo is not modified)",
                  baseline_off_cmd=json.load(open("/root/.vp/BASELINE.json"))["cmd"], source_commits=[], add_only=True),
-      engines=[dict(name="enum", path="/verif/harness/plain", serves_properties=[p for p,c in CHECKS.items() if c.get("engine","enum")=="enum"], kind_free_text="bounded-exhaustive enumeration of inputs/configurations/histories through the real functions against reference models, in-package harnesses injected by -overlay")],
+      engines=[dict(name="enum", path="/verif/harness/plain", serves_properties=[p for p,c in CHECKS.items() if c.get("engine","enum")=="enum"], kind_free_text="bounded-exhaustive enumeration of inputs/configurations/histories through the real functions against reference models, in-package harnesses injected by -overlay"),
+               dict(name="weave", path="/verif/cmd/instr + /verif/vpkg/rt + /verif/harness/weave", serves_properties=[p for p,c in CHECKS.items() if c.get("engine")=="weave"], kind_free_text="source-to-source instrumenter + deterministic cooperative runtime + stateless DFS explorer (delay/preemption, map-order, fault, timer deviations; happens-before fingerprint pruning) running the real terway goroutines"),
+               dict(name="crash", path="/verif/harness/weave/daemon/c05_test.go + /verif/harness/plain/pkg/storage/c05_test.go", serves_properties=["C05"], kind_free_text="crash-point and torn-write enumeration with recovery through the real start-up path")],
       checks=checks, not_applicable=na,
       notes="vcheck exit codes: 0 held, 1 VIOLATION, 2 harness error. Known findings: /verif/known_findings.json.")
     json.dump(m, open("/verif/MANIFEST.json","w"), indent=1)
